@@ -101,7 +101,7 @@ PROPS["C13"] = dict(
 PROPS["C01"] = dict(
     module="Grenad.Props.C01",
     streams={"write": (640, 19200)},
-    rules={"ops": ["ins", "finish", "file", "c", "interop"], "finish_must_succeed": True, "blocks": True},
+    rules={"ops": ["ins", "finish", "file", "c", "interop"], "finish_must_succeed": True},
 )
 
 PROPS["C03"] = dict(
@@ -114,7 +114,7 @@ PROPS["C02"] = dict(module="Grenad.Props.C02", streams={"seek": (640, 19200)}, r
 PROPS["C04"] = dict(module="Grenad.Props.C04", streams={"iter": (640, 19200)}, rules={"ops": ["range", "file"]})
 PROPS["C05"] = dict(module="Grenad.Props.C05", streams={"iter": (640, 19200)}, rules={"ops": ["prefix", "file"]})
 PROPS["C06"] = dict(module="Grenad.Props.C06", streams={"merge": (1280, 38400)}, rules={"ops": ["merge", "mergew"], "calls": True})
-PROPS["C07"] = dict(module="Grenad.Props.C07", streams={"sorter": (960, 28800)}, rules={"ops": ["sfinish", "sins", "snew"], "calls": True})
+PROPS["C07"] = dict(module="Grenad.Props.C07", streams={"sorter": (960, 28800)}, rules={"ops": ["sfinish"], "calls": True})
 PROPS["C08"] = dict(module="Grenad.Props.C08", streams={"sorter": (960, 28800)}, rules={"ops": ["sins", "snew"], "sorter_bounds": True})
 PROPS["C09"] = dict(module="Grenad.Props.C09", streams={"write": (640, 19200)}, rules={"ops": ["finish", "interop", "file"], "blocks": True, "finish_must_succeed": True})
 PROPS["C10"] = dict(module="Grenad.Props.C10", streams={"v1": (480, 14400)}, rules={"ops": ["file", "c", "range", "prefix"]})
